@@ -39,7 +39,7 @@ pub fn prop() -> Prop {
 fn describe(ctx: &Ctx) {
     ctx.rule("histories of 1..30 steps over a family of workbook objects (W0 = new_file, clones of any member, files reloaded eagerly or — sub-check `lazy` — lazily): set / overwrite / delete cell text (plain, guessed or rich text; every string a unique token tokNNNNx), remove rows, remove / add sheets, clone, save any member (twice, to memory), reload a saved file as a new member. Non-trivial = at some save a token had been overwritten/deleted/removed from that member, or a token existed only in another member, or a member sharing its origin had been saved (or loaded) before; distinct by the whole history");
     ctx.assume("tokens are plain ASCII and unique, so a byte scan of every decompressed part finds every stored occurrence (no XML escaping, no splitting: rich-text tokens sit in a single run)");
-    ctx.assume("rows are removed through Worksheet::remove_row on small grids without formulas (Spreadsheet-level removal is C07's subject); sheets are not removed from a lazily loaded member that still has unloaded sheets (C11's subject, counted as excluded)");
+    ctx.assume("rows are removed through Worksheet::remove_row on small grids without formulas (Spreadsheet-level removal is C07's subject)");
     ctx.assume("the independent decoder assumes the part naming of the library's own writer (xl/worksheets/sheetN.xml in workbook order, xl/sharedStrings.xml); it is only ever applied to files the library wrote");
 }
 
@@ -424,6 +424,9 @@ fn put_text(wb: &mut Spreadsheet, si: usize, pos: (u32, u32), text: &str, kind: 
 
 struct SaveOutcome {
     bytes: Vec<u8>,
+    /// a difference in the `<sst>` counters of two successive saves: reported only if the
+    /// history shows no discrepancy in the stored strings themselves (which says more)
+    counters: Option<Verdict>,
 }
 
 /// The oracle of one save of member `mi`.  Ok(bytes of the first save) or the failure.
@@ -533,9 +536,10 @@ fn judge_save(members: &[Member], mi: usize, saved_origins: &BTreeSet<usize>, ob
             (Some((_, ua)), Some((_, ub))) if ua != ub => "double-save/sst-unique-count-differs",
             _ => "double-save/sst-count-differs",
         };
-        return Err(Verdict::fail(format!("{}{}", key, raw_suffix), format!("member {}: <sst count,uniqueCount> first save {:?}, second save {:?}", mi, c1, c2)));
+        let v = Verdict::fail(format!("{}{}", key, raw_suffix), format!("member {}: <sst count,uniqueCount> first save {:?}, second save {:?}", mi, c1, c2));
+        return Ok(SaveOutcome { bytes: first, counters: Some(v) });
     }
-    Ok(SaveOutcome { bytes: first })
+    Ok(SaveOutcome { bytes: first, counters: None })
 }
 
 fn run_history(h: &History, obs: &mut Obs) -> Verdict {
@@ -557,6 +561,7 @@ fn run_history(h: &History, obs: &mut Obs) -> Verdict {
     // origins (clone families) one of whose members has been saved, or that were loaded from a file
     let mut saved_origins: BTreeSet<usize> = BTreeSet::new();
     let (mut saves, mut clones, mut reloads, mut lazies) = (0, 0, 0, 0);
+    let mut pending: Option<Verdict> = None;
 
     for step in &h.steps {
         let n = members.len();
@@ -649,11 +654,6 @@ fn run_history(h: &History, obs: &mut Obs) -> Verdict {
                 if mem.sheets.len() < 2 {
                     continue;
                 }
-                if mem.has_raw() {
-                    // C11 / R15: removing a sheet next to unloaded ones is C11's subject
-                    obs.excluded("C11:remove-sheet-beside-unloaded-sheet");
-                    continue;
-                }
                 let si = pick_idx(sheet, mem.sheets.len());
                 match guard(|| mem.wb.remove_sheet(si)) {
                     Err(p) => return Verdict::fail(format!("edit/panic:{}", p.site()), p.short()),
@@ -694,7 +694,11 @@ fn run_history(h: &History, obs: &mut Obs) -> Verdict {
                 let mi = pick_idx(m, n);
                 saves += 1;
                 match judge_save(&members, mi, &saved_origins, obs) {
-                    Ok(_) => {}
+                    Ok(o) => {
+                        if pending.is_none() {
+                            pending = o.counters;
+                        }
+                    }
                     Err(v) => return v,
                 }
                 saved_origins.insert(members[mi].origin);
@@ -710,6 +714,9 @@ fn run_history(h: &History, obs: &mut Obs) -> Verdict {
                     Ok(o) => o,
                     Err(v) => return v,
                 };
+                if pending.is_none() {
+                    pending = out.counters.clone();
+                }
                 saved_origins.insert(members[mi].origin);
                 if n >= MAX_MEMBERS {
                     continue;
@@ -771,6 +778,9 @@ fn run_history(h: &History, obs: &mut Obs) -> Verdict {
     }
     if clones > 0 && reloads > 0 {
         obs.class("family/clone-and-reload");
+    }
+    if let Some(v) = pending {
+        return v;
     }
     Verdict::Pass
 }
